@@ -1,17 +1,25 @@
 /-
   C07 - The optimisation pass never changes observable behaviour.
 
-  Full statement: for every program accepted by the rewriter, `tgtSem (optimize t) = tgtSem t` for the
-  intermediate output `t`, and the same for user closures in the file.
-  Proved so far (`_partial`): the eta-reduction half, for **all** target programs (no guard):
-  `C07_eta_sound` - replacing `func() Seq { return seq.X() }` by `seq.X` preserves the meaning of every
-  statement list, for source and target execution.  The Delay-elision half is stated (`C07_delay_full`)
-  and currently carried by correspondences K5 (Lean `optimize` on the real intermediate AST = the real
-  final AST) and K6d (real intermediate package vs real final package).
-  Not modelled: eta-reduction of *user* closures (method values, function variables, builtins,
-  conversions) - see DESIGN.md D9 and property C13.
+  * `C07_optimize_sound` (= `optimize_sem`): PROVED - Delay elision followed by eta-reduction preserves
+    the meaning of every statement list of well-formed generated code, for every interpretation of the
+    atoms, store, loop budget and consumer: same resumption tree, i.e. no expression is evaluated earlier,
+    later, more or less often.
+  * `C07_compiled_is_wellformed` (= `compile_wo`): PROVED - whatever the compiler emits (for any body
+    without `fallthrough`, including switches) is well-formed: every Combine / For argument is pure to
+    construct.  This is the side condition of the whitelist entries Combine / For / Loop / While, which the
+    optimiser does not check itself.
+  * `C07_delay_full`: PROVED - the two composed: for every compiled body, optimising changes nothing.
+  * `C07_eta_sound`: the eta half alone needs no well-formedness.
+  * `C07_unsound_without_shape`: kernel-checked - on code that is NOT of the generated shape (a Combine
+    whose argument is a Bind of a non-literal) the elision moves an evaluation: the side condition is
+    necessary, not a proof artefact.
+  Partial / not modelled: eta-reduction of *user* closures (sound only for stable callees; repaired in
+  /repo by 9231456 and exercised by templates EtaShapes, EtaMethodValue, EtaFuncVariable, EtaBuiltin);
+  import clean-up (observed: go build / go vet of every generated package).
 -/
-import GoCo.Proofs.Eta
+import GoCo.Proofs.OptimizeCorrect
+import GoCo.Compile.VM
 set_option autoImplicit false
 
 namespace GoCo.C07
@@ -21,14 +29,61 @@ variable {σ P : Type}
 theorem C07_eta_sound (ρ : Interp σ P) (N : Nat) (susp : Bool) (ss : Stmts) (st : σ) :
     denL ρ N susp (etaStmts ss) st = denL ρ N susp ss st := etaStmts_sem ρ N susp ss st
 
-/-- the part still to be proved: Delay elision on generated shapes -/
-def C07_delay_full : Prop :=
-  ∀ (σ P : Type) (ρ : Interp σ P) (N : Nat) (q : Quirks) (src out : Stmts), compile q src = .ok out →
-    ∀ st, denL ρ N false (odStmts out) st = denL ρ N false out st
+theorem C07_optimize_sound (ρ : Interp σ P) (N : Nat) (susp : Bool) (ss : Stmts) (h : woL ss = true) (st : σ) :
+    denL ρ N susp (optimize ss) st = denL ρ N susp ss st := optimize_sem ρ N susp ss h st
 
-/-- non-vacuity: the optimiser does change generated code -/
+theorem C07_compiled_is_wellformed (q : Quirks) (body t : Stmts) (hs : woL body = true)
+    (h : compile q body = .ok t) : woL t = true := compile_wo q body t hs h
+
+/-- the property for compiled code: the optimised output behaves exactly like the intermediate output -/
+def C07_delay_full : Prop :=
+  ∀ (σ P : Type) (ρ : Interp σ P) (N : Nat) (q : Quirks) (src out : Stmts), woL src = true →
+    compile q src = .ok out → ∀ susp st, denL ρ N susp (optimize out) st = denL ρ N susp out st
+
+theorem C07_delay_full_holds : C07_delay_full :=
+  fun _ _ ρ N q src out hs h susp st => optimize_sem ρ N susp out (compile_wo q src out hs h) st
+
+/-! ### non-vacuity -/
+
+/-- the optimiser does change generated code -/
 example : optimize (.cons (.rete (.start (.delay (.lam (.cons (.rete (.bind ⟨true, 1⟩
       (.lam (.cons (.rete (.sig .normal)) .nil)))) .nil))))) .nil)
     = .cons (.rete (.start (.bind ⟨true, 1⟩ (.fn .normal)))) .nil := rfl
+
+/-- a compiled body with nested elisions: `for C(1) { Yield(1) }; Yield(2); return` -/
+def demo : Stmts :=
+  .cons (.for_ none (some ⟨1, []⟩) none (.cons (.simple (.yield ⟨true, 1⟩)) .nil))
+  (.cons (.simple (.yield ⟨true, 2⟩)) (.cons .ret .nil))
+
+example : woL demo = true := by decide
+def topIsDelay : Stmts → Bool
+  | .cons (.rete (.start (.delay _))) .nil => true
+  | _ => false
+/-- the intermediate output starts `Start(Delay(..))`, the optimised one `Start(Combine(..))` -/
+example : (match compile currentQuirks demo with
+    | .ok t => topIsDelay t && !topIsDelay (optimize t) | .error _ => false) = true := by decide
+
+/-! ### the shape condition is necessary -/
+
+/-- `return Combine(Delay(func(){ return Bind(V(7), Normal) }), Normal())` is generated shape; with the inner
+    Delay hand-removed, `Delay(func(){ return Combine(Bind(V(7), ..), ..) })` is not: eliding the outer Delay
+    would evaluate V(7) when the combinator is constructed -/
+def badShape : SExp :=
+  .delay (.lam (.cons (.rete (.combine (.bind ⟨false, 7⟩ (.fn .normal)) (.sig .normal))) .nil))
+
+example : woX badShape = false := by decide
+
+/-- an interpretation that counts evaluations of V in the store -/
+def ρc : Interp Nat Unit where
+  act _ st := (none, st)
+  pact _ st := (none, st)
+  bpanic _ st := ((), st)
+  def_ _ st := (none, st)
+  val n st := (.ok n, st + 1)
+  cond _ st := (.ok true, st)
+  tag _ st := (.ok 0, st)
+
+theorem C07_unsound_without_shape :
+    (evalS ρc 3 (odSExp badShape) 0).2 ≠ (evalS ρc 3 badShape 0).2 := by decide
 
 end GoCo.C07
